@@ -307,7 +307,7 @@ Section Driver.
     | Some files =>
         let start :=
           match cached_id rc lk with
-          | Some id => POk (Some id)
+          | Some id => POk (Some (N.max id start_id))     (* a lock that records 0 does not hand out ID 0 *)
           | None =>
               match pass_nextid (rc_cfg rc) (o_stop1 o) (o_rfail1 o) files 0 [] with
               | PStop _ => PStop None
